@@ -527,7 +527,99 @@ class Family(SubCheck):
         return "family:%s" % v["msg"]
 
 
-SUBCHECKS = {c.name: c for c in [Select(), Family()]}
+def harvested_literals(path):
+    """integer literals >= 2 of a source file (block sizes, thresholds): the boundaries at which an index computation can
+    change behaviour.  Re-read from the working tree on every run."""
+    import ast
+
+    from vf.runner import REPO
+
+    tree = ast.parse(open(os.path.join(REPO, path)).read())
+    lits = set()
+    for n in ast.walk(tree):
+        if isinstance(n, ast.Constant) and type(n.value) is int and 2 <= n.value <= 4096:
+            lits.add(n.value)
+    return sorted(lits)
+
+
+class CovMon(SubCheck):
+    """The coverage monitor alone against its definition (CovMonitor.coverage[i] = number of added reads spanning variant
+    index i; max_coverage_in_range = maximum over the index range).  readselection consults it before every insertion, so
+    the cap of C07 is only as good as this bookkeeping.  Index ranges run over small values and over the neighbourhood
+    (B-1, B, B+1, 2B-1, 2B, 2B+1) of every integer literal B found in coverage.py - with the naive implementation of the
+    unchanged tree there is none; a blocked / bucketed implementation brings its own boundaries into the bound."""
+
+    name = "covmon"
+    encoded = ["whatshap.coverage.CovMonitor.{__init__,add_read,max_coverage_in_range,coverage}"]
+    sources = ["whatshap/coverage.py"]
+    assumptions = ["0 <= begin < end <= length for every call (readselect passes the first variant index and last + 1)"]
+    stubs = []
+    required_cover = ["query over a range two reads overlap in", "query over a range no read spans", "read nested inside another read"]
+
+    def domain(self):
+        vals = {0, 1, 2, 3}
+        for b in harvested_literals("whatshap/coverage.py"):
+            if b <= 512:
+                vals.update({b - 1, b, b + 1, 2 * b - 1, 2 * b, 2 * b + 1})
+        return sorted(vals)
+
+    def shapes(self, tier):
+        dom = self.domain()
+        pairs = [(a, b) for a in dom for b in dom if a < b]
+        return [dict(first=list(p), nadd=2 if tier == "quick" or len(pairs) > 20 else 3) for p in pairs]
+
+    def bounds(self, tier):
+        return "index values %s (small values plus the neighbourhood of every integer literal of whatshap/coverage.py); 2 (thorough, small domains: 3) add_read calls and one query with solver-chosen ranges over those values; `coverage` compared at every index" % self.domain()
+
+    def setup(self):
+        self.world = SymWorld()
+        self.sym = self.world.load("whatshap.coverage")
+        from vf import build
+
+        build.prepare_repo()
+        import whatshap.coverage
+
+        self.real = whatshap.coverage
+
+    def sym_impl(self):
+        return self.sym
+
+    def real_impl(self):
+        return self.real
+
+    def harness(self, e, shape, impl):
+        dom = self.domain()
+        pairs = [(a, b) for a in dom for b in dom if a < b]
+        length = dom[-1] + 1
+        cm = impl.CovMonitor(length)
+        naive = [0] * length
+        added = []
+        for k in range(shape["nadd"]):
+            b, en = tuple(shape["first"]) if k == 0 else e.choice("add%d" % k, pairs)
+            cm.add_read(b, en)
+            for i in range(b, en):
+                naive[i] += 1
+            added.append((b, en))
+        if any(a[0] <= c[0] and c[1] <= a[1] for a in added for c in added if a is not c):
+            e.cover("read nested inside another read")
+        qb, qe = e.choice("query", pairs)
+        got = cm.max_coverage_in_range(qb, qe)
+        want = max(naive[qb:qe])
+        e.out("max", got)
+        if want >= 2:
+            e.cover("query over a range two reads overlap in")
+        if want == 0:
+            e.cover("query over a range no read spans")
+        info = lambda: dict(added_reads=added, query=[qb, qe], reported=got, spanning_reads_per_index_max=want)
+        e.check(got == want, "coverage monitor: max_coverage_in_range differs from the number of added reads spanning an index of the range (the cap test of read selection is wrong)", info)
+        cov = list(cm.coverage)
+        e.check(cov == naive, "coverage monitor: coverage[] is not the number of added reads spanning each variant index", lambda: dict(info(), coverage=cov, expected=naive))
+
+    def classify(self, shape, v):
+        return "covmon:%s" % v["msg"][:60]
+
+
+SUBCHECKS = {c.name: c for c in [Select(), Family(), CovMon()]}
 
 if __name__ == "__main__":
     import sys
